@@ -5,7 +5,7 @@ against /repo's current tree (each OLD must occur exactly once)."""
 import sys, os, difflib, re
 prop, name, kind, expect = sys.argv[1:5]
 text = sys.stdin.read()
-blocks = re.findall(r'FILE: (\S+)\nOLD:\n(.*?)\nNEW:\n(.*?)\nEND', text, re.S)
+blocks = [(a, b, c[:-1] if c.endswith('\n') else c) for a, b, c in re.findall(r'FILE: (\S+)\nOLD:\n(.*?)\nNEW:\n(.*?)END\n', text, re.S)]
 assert blocks, "no edit blocks"
 files = {}
 for rel, old, new in blocks:
